@@ -430,6 +430,260 @@ def r2(cx):
     cx.sample({'function': body.fn, 'order': ['%s@L%s' % (n, s[1]['line']) for n, s in chain]})
 
 
+# ----------------------------------------------------------------- R3: option table of TrapSet::enter_subshell, by evaluation
+# The option TrapSet::enter_subshell selects for a record is a function of (condition, the two flags, the internal
+# disposition of the record). The rule does not look for one shape of that selection (nested if/else, match with guards,
+# `==` chains, `contains`, De Morgan'd named booleans, an extracted helper, early returns are all the same function);
+# it EVALUATES the MIR of the function for every abstract input and compares the option that reaches
+# GrandState::enter_subshell with the documented table. A test the evaluator cannot decide is explored both ways; only
+# a result that does not depend on such a test is reported as a violation, the others give no verdict (exit 2).
+OPTION = 'core::option::Option'
+CONDITION = 'yash_env::trap::cond::Condition'
+TABLE_ITEM = re.compile(r'^core::option::Option<\(&(mut )?yash_env::trap::cond::Condition, &(mut )?yash_env::trap::state::GrandState\)>$')
+ITER_NEXT = [re.compile(r'Iterator>::next$'), '*::Iterator::next']
+TRANSPARENT_CALLS = [re.compile(r'::clone$'), re.compile(r'::to_owned$'), re.compile(r'Deref>::deref$'), re.compile(r'::as_ref$'),
+                     re.compile(r'::as_slice$'), re.compile(r'Borrow<.*>>::borrow$'), re.compile(r'^core::convert::identity$')]
+SLICE_CONTAINS = [re.compile(r'^core::slice::<impl \[T\]>::contains$')]
+RECORD = ('record',)
+
+
+def _veq(a, b):
+    """Equality of two abstract values: True / False / None (not decidable)."""
+    if a is None or b is None or a[0] != b[0]:
+        return None
+    k = a[0]
+    if k in ('b', 'sig', 'int'):
+        return a[1] == b[1]
+    if k == 'enum':
+        if a[1] != b[1]:
+            return None
+        if a[2] != b[2]:
+            return False
+        fa, fb = a[3], b[3]
+    elif k in ('tuple', 'array'):
+        fa, fb = a[1], b[1]
+    else:
+        return None
+    if len(fa) != len(fb):
+        return None
+    rs = [_veq(x, y) for x, y in zip(fa, fb)]
+    if any(r is False for r in rs):
+        return False
+    return True if all(r is True for r in rs) else None
+
+
+class _TableEval:
+    """Evaluates a MIR body on abstract values. Values: ('b', bool) ('sig', NAME) ('int', n) ('enum', adt, variant, fields)
+    ('tuple', fields) ('array', elements) RECORD (the trap record of the entry) None (unknown). References are
+    transparent (a reference evaluates to the value of its referent)."""
+
+    def __init__(self, F, body, params, item, disposition, is_sink, max_steps=6000):
+        self.F, self.body = F, body
+        self.params = params            # parameter name -> value
+        self.item = item                # what the iteration over the trap table yields
+        self.disposition = disposition  # what GrandState::internal_disposition returns for the record
+        self.is_sink = is_sink
+        self.max_steps = max_steps
+        self.upvars = {}
+        for u in body.d.get('upvars') or []:
+            pl = u.get('place') or {}
+            fs = [e for e in pl.get('p') or [] if isinstance(e, dict) and 'f' in e]
+            if pl.get('l') == 1 and len(fs) == 1:
+                self.upvars[fs[0]['f']] = u.get('name')
+
+    # -- values
+    def const(self, o):
+        c = str(o.get('c'))
+        if o.get('ty') == 'bool' and c in ('true', 'false'):
+            return ('b', c == 'true')
+        cdef = o.get('cdef') or ''
+        if '::Signals::' in cdef:
+            return ('sig', cdef.split('::')[-1])
+        return None
+
+    def place(self, env, p):
+        proj = list(p.get('p') or [])
+        if p['l'] == 1 and self.upvars:
+            while proj and proj[0] == '*':
+                proj.pop(0)
+            if not (proj and isinstance(proj[0], dict) and 'f' in proj[0]):
+                return None
+            v = self.params.get(self.upvars.get(proj.pop(0)['f']))
+        else:
+            v = env.get(p['l'])
+        for e in proj:
+            if v is None:
+                return None
+            if e == '*':
+                continue
+            if not isinstance(e, dict):
+                return None
+            if 'v' in e:
+                if v[0] != 'enum' or v[2] != e['v']:
+                    return None
+            elif 'f' in e:
+                fs = v[3] if v[0] == 'enum' else v[1] if v[0] == 'tuple' else None
+                if fs is None or not str(e['f']).isdigit() or int(e['f']) >= len(fs):
+                    return None
+                v = fs[int(e['f'])]
+            else:
+                return None
+        return v
+
+    def operand(self, env, o):
+        p = Q.operand_place(o)
+        return self.place(env, p) if p is not None else self.const(o)
+
+    def rvalue(self, env, rv):
+        k = rv['k']
+        if k == 'use':
+            return self.operand(env, rv['o'])
+        if k == 'ref':
+            return self.place(env, rv['pl'])
+        if k == 'cast':
+            return self.operand(env, rv['o']) if str(rv.get('ck', '')).startswith('PointerCoercion') else None
+        if k == 'discr':
+            v = self.place(env, rv['pl'])
+            names = Q.variant_names(self.F, rv.get('ty') or '')
+            if v is not None and v[0] == 'enum' and names and v[2] in names:
+                return ('int', names.index(v[2]))
+            return None
+        if k == 'agg':
+            ops = tuple(self.operand(env, o) for o in rv['ops'])
+            if rv.get('ak') == 'adt':
+                return ('enum', rv.get('adt'), rv.get('variant'), ops)
+            if rv.get('ak') in ('tuple', 'array'):
+                return (rv['ak'], ops)
+            return None
+        if k == 'unop':
+            v = self.operand(env, rv['o'])
+            return ('b', not v[1]) if rv.get('op') == 'Not' and v is not None and v[0] == 'b' else None
+        if k == 'binop':
+            a, b = self.operand(env, rv['a']), self.operand(env, rv['b'])
+            op = rv.get('op')
+            if op in ('Eq', 'Ne'):
+                r = _veq(a, b)
+                return None if r is None else ('b', r == (op == 'Eq'))
+            if a is not None and b is not None and a[0] == 'b' and b[0] == 'b' and op in ('BitAnd', 'BitOr', 'BitXor'):
+                return ('b', {'BitAnd': a[1] and b[1], 'BitOr': a[1] or b[1], 'BitXor': a[1] != b[1]}[op])
+        return None
+
+    def call(self, env, t):
+        a = [self.operand(env, o) for o in t['a']]
+        if Q.callee_is(t, EQ + NE) and len(a) == 2:
+            r = _veq(a[0], a[1])
+            return None if r is None else ('b', r == bool(Q.callee_is(t, EQ)))
+        if Q.callee_is(t, SLICE_CONTAINS) and len(a) == 2:
+            if a[0] is None or a[0][0] != 'array':
+                return None
+            rs = [_veq(e, a[1]) for e in a[0][1]]
+            if any(r is True for r in rs):
+                return ('b', True)
+            return ('b', False) if all(r is False for r in rs) else None
+        if Q.callee_is(t, [GRAND + '::internal_disposition']) and a and a[0] == RECORD:
+            return self.disposition
+        if Q.callee_is(t, TRANSPARENT_CALLS) and len(a) == 1:
+            return a[0]
+        return None
+
+    # -- control
+    def run(self):
+        """[(kind, value, decided, block)]: kind 'option' (value = what reaches the sink), 'skipped' (the loop went on to
+        the next entry or the function returned without reaching the sink), 'diverged'."""
+        body = self.body
+        out = []
+        env0 = {}
+        if not self.upvars:                     # a plain fn: parameters are the first locals
+            for l in range(1, body.argc + 1):
+                env0[l] = self.params.get(body.locals[l].get('name'))
+        stack = [(0, env0, False, True, {})]
+        steps = 0
+        while stack:
+            b, env, used, decided, visits = stack.pop()
+            while True:
+                steps += 1
+                if steps > self.max_steps:
+                    raise _Undecidable('evaluation of %s does not terminate within %d steps' % (body.fn, self.max_steps))
+                visits[b] = visits.get(b, 0) + 1
+                if visits[b] > 2:
+                    break                       # a loop on a test that is not decided (await): the exit edge is explored separately
+                blk = body.blocks[b]
+                for s in blk['s']:
+                    if s['k'] == 'assign':
+                        v = self.rvalue(env, s['rv'])
+                        if not s['lhs'].get('p'):
+                            env[s['lhs']['l']] = v
+                        elif s['lhs']['p'][0] != '*':
+                            env[s['lhs']['l']] = None
+                    elif s['k'] == 'setdiscr':
+                        env[s['lhs']['l']] = None
+                t = blk['t']
+                k = t['k']
+                if k == 'switch':
+                    v = self.operand(env, t['d'])
+                    n = int(v[1]) if v is not None and v[0] in ('b', 'int') else None
+                    if n is not None:
+                        b = dict((x, y) for x, y in t['ts']).get(n, t['else'])
+                        continue
+                    tgts = [x for x in body.succ(b) if body.blocks[x]['t']['k'] != 'unreachable' or body.blocks[x]['s']]
+                    for x in tgts[1:]:
+                        stack.append((x, dict(env), used, False, dict(visits)))
+                    if not tgts:
+                        break
+                    b, decided = tgts[0], False
+                    continue
+                if k == 'call':
+                    sink = self.is_sink(t)
+                    if sink is not None:
+                        out.append(('option', self.operand(env, t['a'][sink]), decided, b))
+                        break
+                    if Q.callee_is(t, ITER_NEXT):
+                        if TABLE_ITEM.match(t.get('dty') or ''):
+                            if used:
+                                out.append(('skipped', None, decided, b))
+                                break
+                            used = True
+                            v = ('enum', OPTION, 'Some', (self.item,))
+                        else:
+                            v = ('enum', OPTION, 'None', ())      # other loops do not select the option: not entered
+                    else:
+                        v = self.call(env, t)
+                    if not t['dest'].get('p'):
+                        env[t['dest']['l']] = v
+                    if t.get('to') is None:
+                        out.append(('diverged', None, decided, b))
+                        break
+                    b = t['to']
+                    continue
+                if k in ('goto', 'drop', 'assert', 'falseedge', 'falseunwind', 'yield') and t.get('to') is not None:
+                    b = t['to']
+                    continue
+                out.append(('skipped' if k == 'return' else 'diverged', None, decided, b))
+                break
+        return out
+
+
+class _Undecidable(Exception):
+    pass
+
+
+SIG_INT_QUIT = ('SIGINT', 'SIGQUIT')
+SIG_STOPPERS = ('SIGTSTP', 'SIGTTIN', 'SIGTTOU')
+
+
+def expected_option(cond, sig, flag1, flag2, disposition):
+    """The documented table of TrapSet::enter_subshell."""
+    if cond == 'Exit':
+        return 'ClearInternalDisposition'
+    if sig == 'SIGCHLD':
+        return 'KeepInternalDisposition'
+    if flag1 and sig in SIG_INT_QUIT:
+        return 'Ignore'
+    if flag2 and sig in SIG_STOPPERS and disposition != 'Default':
+        return 'Ignore'
+    return 'ClearInternalDisposition'
+
+
 # ----------------------------------------------------------------- R3
 @RS.rule('C08.R3', 'K-TABLE+K-GUARD', 'trap reset on subshell entry: command traps -> default (saved as parent state); option table per signal')
 def r3(cx):
@@ -519,7 +773,7 @@ def r3(cx):
         if H.path_def(arm(m_int, v)) != DISP + '::Default':
             cx.violation(fn, 'table:internal:%s' % v, '%s must clear the internal disposition' % v, loc=loc)
 
-    # TrapSet::enter_subshell: which option for which signal
+    # TrapSet::enter_subshell: which option for which signal (decided by evaluating the function, see _TableEval)
     fn2 = 'yash_env::trap::TrapSet::enter_subshell'
     b2 = F.inlined(F.main_body(fn2), lambda callee: callee.startswith('yash_env::trap::TrapSet::') and
                    (F.fns.get(callee) or {}).get('vis') != 'pub')       # an extracted option-selection helper is inlined
@@ -530,70 +784,128 @@ def r3(cx):
     FLAG1, FLAG2 = 'ignore_sigint_sigquit', 'keep_internal_dispositions_for_stoppers'
     pnames = [p_.get('name') for p_ in F.hir_of(fn2)['params']]
     cx.require(FLAG1 in pnames and FLAG2 in pnames, 'parameters %s / %s of TrapSet::enter_subshell not found (%s)' % (FLAG1, FLAG2, pnames))
-    n_keep = 0
-    for b, j, s in aggs:
-        v = s['rv']['variant']
-        cs = conds(F, b2, du2, b)
-        flags = {cond_name(b2, du2, c): c[1][1] for c in cs if c[1][0] == 'bool' and c[0]['k'] != 'call'}
-        sig_case = any(c[0]['k'] == 'discr' and only_label(cs, c, ('variant', 'Signal')) for c in cs)
-        cx.site('%s: option %s at %s under %s' % (b2.fn, v, b2.loc(s), sorted(k for k, val in flags.items() if val and k)))
-        if v == 'KeepInternalDisposition':
-            n_keep += 1
-            if not any(holds_eq(b2, du2, c, 'Signals::SIGCHLD') for c in cs):
-                cx.violation(fn2, 'keep-not-sigchld', 'the internal disposition is kept for a signal other than SIGCHLD',
-                             loc=b2.loc(s))
+    heads = [(b, t) for b, t in Q.find_calls(b2, ITER_NEXT) if TABLE_ITEM.match(t.get('dty') or '')]
+    cx.require(heads, 'TrapSet::enter_subshell: no iteration over the trap table yielding (&Condition, &mut GrandState) found - the rule '
+               'cannot tell which record the selected option belongs to')
+
+    def is_sink(t):
+        """The call that consumes the selected option: GrandState::enter_subshell, or a function of the trap module that is
+        handed the option (a private helper wrapping that call)."""
+        callee = t['f'].get('def') or t['f'].get('decl') or ''
+        if not (Q.callee_is(t, [GRAND + '::enter_subshell']) or callee.startswith('yash_env::trap::')):
+            return None
+        for i, ty in enumerate(t.get('at') or []):
+            if ty == ESO and i < len(t['a']):
+                return i
+        return None
+    cx.require(any(is_sink(t) is not None for b, t in b2.calls()), 'TrapSet::enter_subshell hands no EnterSubshellOption to the trap module')
+    # abstract inputs: every signal the function mentions, the six signals of the table, and one signal that is none of them
+    mentioned = set()
+    for b, j, s in b2.stmts():
+        if s['k'] == 'assign':
+            for o in Q.rvalue_operands(s['rv']):
+                if '::Signals::' in (o.get('cdef') or ''):
+                    mentioned.add(o['cdef'].split('::')[-1])
+    for b, t in b2.calls():
+        for o in t['a']:
+            if '::Signals::' in (o.get('cdef') or ''):
+                mentioned.add(o['cdef'].split('::')[-1])
+    sigs = sorted(mentioned | {'SIGCHLD'} | set(SIG_INT_QUIT) | set(SIG_STOPPERS)) + ['<any other signal>']
+    disp_names = [v['name'] for v in F.adt(DISP)['variants']]
+    cx.require('Default' in disp_names, 'Disposition::Default not found')
+    conditions = [('Exit', None)] + [('Signal', s) for s in sigs]
+    bad, undecided, reached, table = {}, [], 0, {}
+    for cond, sig in conditions:
+        cval = ('enum', CONDITION, cond, (('sig', sig),) if cond == 'Signal' else ())
+        for f1 in (False, True):
+            for f2 in (False, True):
+                for d in disp_names:
+                    ev = _TableEval(F, b2, {FLAG1: ('b', f1), FLAG2: ('b', f2)}, ('tuple', (cval, RECORD)),
+                                    ('enum', DISP, d, ()), is_sink)
+                    try:
+                        outs = ev.run()
+                    except _Undecidable as e:
+                        cx.require(False, str(e))
+                    want = expected_option(cond, sig, f1, f2, d)
+                    cx.cellcount(1)
+                    inp = '%s, %s=%s, %s=%s, internal disposition %s' % ('EXIT' if cond == 'Exit' else sig, FLAG1, f1, FLAG2, f2, d)
+                    for kind, v, decided, blk in outs:
+                        if kind != 'option':
+                            continue          # an entry that is not handed on at all is C11.R11's clause
+                        reached += 1
+                        got = v[2] if v is not None and v[0] == 'enum' and v[1] == ESO else None
+                        if got is None or (got != want and not decided):
+                            undecided.append(inp)
+                            continue
+                        table.setdefault((cond, sig), set()).add(got)
+                        if got != want:
+                            bad.setdefault((cond, sig, got, want), []).append((inp, blk))
+    cx.require(reached, 'the evaluation of TrapSet::enter_subshell never reaches the call that consumes the option')
+    for (cond, sig), opts in sorted(table.items(), key=str):
+        cx.site('%s: option(s) for %s over all flag values / internal dispositions: %s' % (b2.fn, 'EXIT' if cond == 'Exit' else sig, sorted(opts)))
+    for (cond, sig, got, want), lst in sorted(bad.items(), key=str):
+        who = 'the EXIT condition' if cond == 'Exit' else sig
+        inp, blk = lst[0]
+        if want == 'KeepInternalDisposition':
+            desc, msg = 'sigchld-not-kept:%s' % got, 'SIGCHLD gets option %s: its internal handler must be kept (the subshell waits for its own children)' % got
+        elif got == 'KeepInternalDisposition':
+            desc, msg = 'keep-not-sigchld:%s' % who, 'the internal disposition is kept for %s, a condition other than SIGCHLD' % who
+        elif got == 'Ignore':
+            desc, msg = 'ignore-without-flag:%s' % who, ('%s is set to Ignore on subshell entry although the table says %s (Ignore is for SIGINT/SIGQUIT under %s '
+                                                       'and for SIGTSTP/SIGTTIN/SIGTTOU with an enabled internal disposition under %s)' % (who, want, FLAG1, FLAG2))
         else:
-            if sig_case and not any(holds_eq(b2, du2, c, 'Signals::SIGCHLD', want=False) for c in cs):
-                cx.violation(fn2, 'sigchld-not-kept:%s' % v, 'SIGCHLD can get option %s: its internal handler must be kept '
-                             '(the subshell waits for its own children)' % v, loc=b2.loc(s))
-        if v == 'Ignore':
-            if flags.get(FLAG1) is True:
-                pass
-            elif flags.get(FLAG2) is True:
-                if not any(c[0]['k'] == 'call' and Q.callee_is(c[0]['t'], NE + EQ) and
-                           any(n.endswith('Disposition::Default') for n in eq_const_args(b2, du2, c[0]['t'])) for c in cs):
-                    cx.violation(fn2, 'stopper-ignore-unconditional', 'stopper signals are ignored although their internal '
-                                 'disposition was not enabled', loc=b2.loc(s))
-            else:
-                cx.violation(fn2, 'ignore-without-flag', 'a signal is set to Ignore on subshell entry without '
-                             '%s or %s being requested' % (FLAG1, FLAG2), loc=b2.loc(s))
-    if n_keep != 1:
-        cx.violation(fn2, 'keep-count', 'expected exactly one KeepInternalDisposition case (SIGCHLD), found %d' % n_keep,
-                     loc=b2.loc(b2.d))
-    # the signals compared under each flag
-    want = {FLAG1: {'SIGINT', 'SIGQUIT'}, FLAG2: {'SIGTSTP', 'SIGTTIN', 'SIGTTOU'}}
-    got = {FLAG1: set(), FLAG2: set()}
-    for b, t in Q.find_calls(b2, EQ + NE):
-        names = [n.split('::')[-1] for n in eq_const_args(b2, du2, t) if '::Signals::' in n]
-        if not names:
-            continue
-        cs = conds(F, b2, du2, b)
-        flags = {cond_name(b2, du2, c): c[1][1] for c in cs if c[1][0] == 'bool' and c[0]['k'] != 'call'}
-        for fl in got:
-            # innermost flag: FLAG2 tests are reached when FLAG1 is false or did not match
-            if flags.get(fl) is True and not (fl == FLAG1 and flags.get(FLAG2) is True):
-                if fl == FLAG1 or flags.get(FLAG1) is not True:
-                    got[fl].update(names)
-    for fl in want:
-        cx.site('%s: signals compared under %s: %s' % (b2.fn, fl, sorted(got[fl])))
-        if got[fl] != want[fl]:
-            cx.violation(fn2, 'signals-under:%s' % fl, 'under %s the signals %s must be selected, found %s'
-                         % (fl, sorted(want[fl]), sorted(got[fl])), loc=b2.loc(b2.d))
+            desc, msg = 'not-ignored:%s' % who, '%s gets option %s where the table says %s' % (who, got, want)
+        cx.violation(fn2, desc, '%s [for %s; %d input(s) in all]' % (msg, inp, len(lst)), loc=b2.loc(b2.term(blk)))
+    if undecided:
+        cx.require(False, 'the option TrapSet::enter_subshell selects depends on a test the rule cannot evaluate (for %s; %d inputs in all): no verdict'
+                   % (undecided[0], len(undecided)))
     # signals without an entry are ignored too when requested
-    ig = Q.find_calls(b2, [GRAND + '::ignore'])
+    helpers = {}
+
+    def ignore_helper(t):
+        """A private async function of the trap module that passes a vacant entry to GrandState::ignore and awaits it
+        (`async fn ignore_if_unknown(&mut self, system, signal)`): the step extracted from the loop."""
+        callee = t['f'].get('def') or ''
+        if callee not in helpers:
+            ok = False
+            if callee.startswith('yash_env::trap::') and callee != GRAND + '::ignore' and (F.fns.get(callee) or {}).get('vis') != 'pub':
+                try:
+                    hb = F.main_body(callee)
+                except Exception:
+                    hb = None
+                if hb is not None and hb.fn != b2.fn:
+                    hdu = Q.DefUse(hb)
+                    inner = Q.find_calls(hb, [GRAND + '::ignore'])
+                    ok = bool(inner) and all(await_done(F, hb, hdu, it) is not None for ib, it in inner)
+            helpers[callee] = ok
+        return helpers[callee]
+    ig = [(b, t, Q.callee_is(t, [GRAND + '::ignore'])) for b, t in b2.calls() if Q.callee_is(t, [GRAND + '::ignore']) or ignore_helper(t)]
     if not ig:
         cx.violation(fn2, 'vacant-not-ignored', 'SIGINT/SIGQUIT without a trap entry are not set to Ignore', loc=b2.loc(b2.d))
-    for b, t in ig:
+    # signal constants that flow into the vacant-entry step (through the array iterated over, Condition::Signal, the entry)
+    seeds = {}
+    for b, j, s in b2.stmts():
+        if s['k'] == 'assign' and not s['lhs'].get('p'):
+            cs_ = {o['cdef'].split('::')[-1] for o in Q.rvalue_operands(s['rv']) if '::Signals::' in (o.get('cdef') or '')}
+            if cs_:
+                seeds.setdefault(s['lhs']['l'], set()).update(cs_)
+    for b, t, direct in ig:
         cs = conds(F, b2, du2, b)
         flags = {cond_name(b2, du2, c): c[1][1] for c in cs if c[1][0] == 'bool' and c[0]['k'] != 'call'}
-        cx.site('%s: GrandState::ignore for vacant entries at %s' % (b2.fn, b2.loc(t)))
+        cx.site('%s: GrandState::ignore for vacant entries at %s%s' % (b2.fn, b2.loc(t), '' if direct else ' (through %s)' % pp.callee(t)))
         if flags.get(FLAG1) is not True:
             cx.violation(fn2, 'vacant-ignore-unguarded', 'GrandState::ignore is not guarded by %s' % FLAG1, loc=b2.loc(t))
-    arrs = [s for b, j, s in b2.stmts() if s['k'] == 'assign' and s['rv']['k'] == 'agg' and s['rv'].get('ak') == 'array']
-    consts = {o.get('cdef', '').split('::')[-1] for s in arrs for o in s['rv']['ops']}
-    if ig and consts != {'SIGINT', 'SIGQUIT'}:
-        cx.violation(fn2, 'vacant-ignore-signals', 'the signals ignored for vacant entries must be SIGINT and SIGQUIT, found %s'
-                     % sorted(consts), loc=b2.loc(ig[0][1]))
+        if await_done(F, b2, du2, t) is None:
+            cx.violation(fn2, 'vacant-ignore-not-awaited', 'the future that sets a signal without a trap entry to Ignore is not awaited: '
+                         'SIGINT/SIGQUIT keep their disposition in an asynchronous subshell', loc=b2.loc(t))
+        consts = set(o['cdef'].split('::')[-1] for o in t['a'] if '::Signals::' in (o.get('cdef') or ''))
+        args = {Q.operand_local(a) for a in t['a']} - {None}
+        for l, names in seeds.items():
+            if args & Q.forward_taint(b2, {l}):
+                consts |= names
+        if consts != {'SIGINT', 'SIGQUIT'}:
+            cx.violation(fn2, 'vacant-ignore-signals', 'the signals ignored for vacant entries must be SIGINT and SIGQUIT, found %s'
+                         % sorted(consts), loc=b2.loc(t))
 
 
 # ----------------------------------------------------------------- R4
